@@ -5,6 +5,7 @@ Integer part (bn_read_bin / bn_write_bin / bn_size_bin, bn_read_str / bn_write_s
 import RelicVerif.Lemmas.BnConv
 import RelicVerif.Lemmas.EpConv
 import RelicVerif.Lemmas.Ep2Conv
+import RelicVerif.Lemmas.Fp2Conv
 
 namespace Relic.Props.C07
 open Relic.Model
@@ -132,5 +133,43 @@ theorem ep2_compression_bit_pinned_counterexample :
 example : signPck true 7 [5, 0] = 1 ∧ signPck true 7 [2, 0] = 0 ∧ (7 % 2 = 1) := by decide
 
 end Ep2
+
+/-! ### elements of Fp2 (fp2_write_bin / fp2_read_bin, fp2_pck / fp2_upk) -/
+section Fp2
+open Relic.Lemmas.Fp2Conv
+
+/-- decoding a packed string (FB + 1 bytes) yields only unitary elements with a reduced first coefficient equal to the transmitted one
+    and a second coefficient of the transmitted parity — so the re-encoding is the input -/
+theorem fp2_decode_packed_valid (x : Relic.Model.Fp2Conv.Ctx) (hp : 1 < x.p) (hs : SrtSound x) (hq : QinvOk x) (bin : List Nat)
+    (a0 a1 : Nat) (hl : bin.length = x.nb + 1) (h : Relic.Model.Fp2Conv.readBin x bin = some (a0, a1)) :
+    Relic.Model.Fp2Conv.unitary x a0 a1 = true ∧ a0 < x.p ∧ a0 = Relic.Model.Ep2Conv.beVal (bin.take x.nb) ∧
+      x.bit a1 = bin.getD x.nb 0 :=
+  readBin_packed_valid x hp hs hq bin a0 a1 hl h
+
+/-- a parity byte other than 0 / 1 is never accepted (the pinned fp2_read_bin accepted every value: repaired) -/
+theorem fp2_decode_parity_rejected (x : Relic.Model.Fp2Conv.Ctx) (bin : List Nat) (hl : bin.length = x.nb + 1)
+    (hpar : bin.getD x.nb 0 > 1) : Relic.Model.Fp2Conv.readBin x bin = none :=
+  readBin_parity_rejected x bin hl hpar
+
+/-- decode(encode(a)) = a in the packed format for every unitary element, for every prime p and every non-residue β (the pinned
+    fp2_upk was only correct for β = −1: repaired) -/
+theorem fp2_decode_encode_packed (x : Relic.Model.Fp2Conv.Ctx) (hprime : Nat.Prime x.p) (hs : SrtSound x) (hc : SrtComplete x)
+    (hq : QinvOk x) (hsep : BitSep x) (hbit : ∀ a, x.bit a ≤ 1) (hnb : 0 < x.nb) (hp : x.p ≤ 256 ^ x.nb) (a0 a1 : Nat)
+    (h0 : a0 < x.p) (h1 : a1 < x.p) (hu : Relic.Model.Fp2Conv.unitary x a0 a1 = true) :
+    (Relic.Model.Fp2Conv.writeBin x (Relic.Model.Fp2Conv.sizeBin x a0 a1 true) a0 a1 true).bind (Relic.Model.Fp2Conv.readBin x)
+      = some (a0, a1) :=
+  readBin_writeBin_packed x hprime hs hc hq hsep hbit hnb hp a0 a1 h0 h1 hu
+
+/-- decode(encode(a)) = a in the plain format -/
+theorem fp2_decode_encode_plain (x : Relic.Model.Fp2Conv.Ctx) (a0 a1 : Nat) (hnb : 1 < x.nb) (hp : x.p ≤ 256 ^ x.nb)
+    (h0 : a0 < x.p) (h1 : a1 < x.p) :
+    Relic.Model.Fp2Conv.readBin x (Relic.Model.Ep2Conv.beBytes a0 x.nb ++ Relic.Model.Ep2Conv.beBytes a1 x.nb) = some (a0, a1) :=
+  readBin_writeBin_plain x a0 a1 hnb hp h0 h1
+
+/-- premises satisfiable: F_7[u]/(u² − 5) with β⁻¹ = 3; the element 6 = −1 is unitary -/
+example : Relic.Model.Fp2Conv.unitary { p := 7, qnr := 5, qinv := 3, nb := 1, srt := fun _ => none, bit := fun a => a % 2 } 6 0 = true ∧
+    (3 * 5) % 7 = 1 % 7 := by decide
+
+end Fp2
 
 end Relic.Props.C07
